@@ -661,8 +661,10 @@ impl EventGen for Tag {
                 // A shape is the same shape whether it is written as an empty element
                 // or with an end tag (around its text, a <title>...).
                 // (not a <reuse>: its instance gets them)
-                if (el.is_graphics_element() && el.name != "reuse")
-                    || matches!(el.name.as_str(), "box" | "point")
+                // (nor the instance of one, which has them - and its values - already)
+                if !el.evaluated
+                    && ((el.is_graphics_element() && el.name != "reuse")
+                        || matches!(el.name.as_str(), "box" | "point"))
                 {
                     context.apply_defaults(&mut el);
                 }
